@@ -60,6 +60,14 @@ CHECKS = {
         text="All str and bytes keys of length <=2 over the full 256-value alphabet (quick: <=1 full, 2 and 3 over a 16-class projection), every byte at every position of 249/250/251-byte keys, byte lengths around the limit for 1-4 byte UTF-8 characters, x 8 prefixes (lengths 0,1,3,125,249,250, two containing separators) x allow_unicode_keys, through check_key_helper, Client.check_key, PooledClient.check_key and the get() path of Client, PooledClient and HashClient; accepted iff the independent predicate says legal, returned/transmitted form == prefix+encoded key, rejection is MemcacheIllegalInputError and happens before anything is written.",
         note="Trusted: the predicate in vmc/keyspace.py (written from the property statement). Keys whose prefixed form is empty are outside the statement; longer keys are covered by structured families, not exhaustively.",
     ),
+    "C02": dict(
+        engine="input-enumerator",
+        level="exploration",
+        technique="bounded-exhaustive enumeration of operations x arguments x configurations on the real client; every byte written is parsed by an independent strict protocol parser and compared with independently computed intended commands",
+        design_ref="DESIGN.md section 3 / C02",
+        text="(A) every key-addressed operation x all keys of <=1 byte/char over the full alphabet (thorough: <=2), 2-3 chars over a 16-class projection, boundary-length keys, the empty key x 3 prefixes (one containing a space) x allow_unicode_keys x str/bytes; (B) store operations x a corpus of values made of protocol text x ascii/utf8; (C) every integer parameter x protocol boundary values and a menu of non-integers (float, str, bytes, None, bool, list, CR LF payloads); (D) multi-key calls (1-4 and 16..2050 keys) with an illegal key at every / selected position(s); (E) a flag-using serializer x explicit flags. Either MemcacheIllegalInputError with zero bytes written, or the strict parser reads exactly the intended commands.",
+        note="Trusted: vmc/strictparse.py as the definition of well-formed. Integers outside protocol ranges are not judged. Known finding: the empty key with an empty prefix (pinned by the suite).",
+    ),
 }
 
 PENDING = "check not built yet in this session; planned engine and oracle are in DESIGN.md section 3"
@@ -69,6 +77,9 @@ ENGINES = [
     {"name": "E2-explicit-state-bfs", "path": "checks/c09.py (pattern shared by C05, C11, C13, C19)",
      "serves_properties": ["C09"],
      "kind_free_text": "explicit-state BFS: a state is the event history reaching it, rebuilt on fresh real objects; canonical form de-duplicates; every transition runs the implementation"},
+    {"name": "input-enumerator", "path": "checks/c02.py, checks/c20.py (and c14, c15, c17, c18)",
+     "serves_properties": ["C02", "C20"],
+     "kind_free_text": "nested loops over a finite, explicitly listed input space; the real function is called once per element and compared with an independent reference"},
     {"name": "segmentation-enumerator", "path": "checks/c03.py", "serves_properties": ["C03"],
      "kind_free_text": "bounded-exhaustive enumeration of recv() segmentations of reference reply streams"},
     {"name": "E1-deviation-bounded-explorer", "path": "vmc/explore.py",
